@@ -553,3 +553,40 @@ func runTplCase(raw json.RawMessage, w *TraceWriter) {
 
 var famTpl = Register(&Family{Name: "tpl", Spec: "Trace_SkipMachine", Cfg: "Trace_SkipMachine.cfg", Run: runTplCase,
 	Sig: func(raw json.RawMessage, line string) string { return "tpl/verdict" }})
+
+// ---- ReaderSkipDecoder buffer model (implementation level, via the verif hook) -------------------------
+
+func runRdecCase(raw json.RawMessage, w *TraceWriter) {
+	var c SkipSeqCase
+	if err := json.Unmarshal(raw, &c); err != nil {
+		panic(err)
+	}
+	rng := rand.New(rand.NewSource(c.Seed))
+	s := &SegBuf{}
+	var ts []int
+	for i := 0; i < c.N; i++ {
+		t := allTypes[rng.Intn(len(allTypes))]
+		ts = append(ts, int(t))
+		vg := &valGen{rng: rng, budget: 3 + rng.Intn(12), bigStr: c.Big}
+		vg.Value(s, t, 1+rng.Intn(3))
+	}
+	src := &dataSource{data: s.b, chunks: []int{1 + rng.Intn(5000)}, wd: c.Fail}
+	d := thrift.NewReaderSkipDecoder(src)
+	_, l0, c0 := d.VerifState()
+	var states []string
+	for _, t := range ts {
+		if _, err := d.Next(int8(t)); err != nil {
+			break
+		}
+		n, bl, bc := d.VerifState()
+		states = append(states, fmt.Sprintf("[%d,%d,%d]", n, bl, bc))
+	}
+	d.Release()
+	if len(states) != len(ts) {
+		return // judged by the C02/C08 families; the buffer model is defined for successful sessions
+	}
+	w.Ev("rdec", "ts", ts, "in", s.JSON(), "init", []int{l0, c0}, "states", Raw("["+strings.Join(states, ",")+"]"))
+}
+
+var famRdec = Register(&Family{Name: "rdec", Spec: "Trace_SkipMachine", Cfg: "Trace_SkipMachine.cfg", Run: runRdecCase,
+	Sig: func(raw json.RawMessage, line string) string { return "rdec/buffer" }})
